@@ -740,4 +740,28 @@ theorem C03_gomod_expected_model_semantics (d : GoMod.Doc) : (GoMod.extract d).P
       · simp [hs] at h
     · right; exact ⟨r, hr, hc, rfl⟩
 
+theorem foldl_addSum (es : List NV) (acc : List NV) (h : acc.Nodup) :
+    (es.foldl GoMod.addSum acc).Nodup ∧ ∀ p, p ∈ es.foldl GoMod.addSum acc ↔ p ∈ acc ∨ p ∈ es := by
+  have e : GoMod.addSum = PackagesLock.addOnce := rfl
+  rw [e]
+  exact foldl_addOnce es acc h
+
+/-- go.mod of a module older than go 1.17 with a readable go.sum next to it: the scan reports, once each, the packages of go.mod and
+every module go.sum lists (`sumEntry`: version without the leading "v", `/go.mod` hash lines skipped) — a permutation of `expectedSum`.
+Without go.sum, with a go.sum line that does not have three fields, or from go 1.17 on: the go.mod result alone. -/
+theorem C03_gomod_sum_model_semantics (d : GoMod.Doc) (older : Bool) (sum : GoMod.Sum) :
+    (GoMod.extractWithSum d older sum).Perm (GoMod.expectedSum d older sum) := by
+  unfold GoMod.extractWithSum GoMod.expectedSum
+  cases older with
+  | false => exact C03_gomod_expected_model_semantics d
+  | true =>
+    cases sum with
+    | none => exact C03_gomod_expected_model_semantics d
+    | some es =>
+      obtain ⟨h1, h2⟩ := foldl_addSum (es.filterMap GoMod.sumEntry) (GoMod.extract d) (C03_gomod_model_semantics d).1
+      refine perm_dedup_of_nodup _ _ h1 fun p => ?_
+      rw [h2 p, List.mem_append]
+      have hp := (C03_gomod_expected_model_semantics d).mem_iff (a := p)
+      rw [hp]
+
 end Scalibr.Lockfiles
